@@ -287,7 +287,7 @@ Proof.
     destruct (tc_response t), (tc_reference t);
       first [ injection H as <-; reflexivity
             | apply bind_ok in H as (cm' & Hcode & H); injection H as <-; reflexivity ].
-  - apply bind_ok in H as (cm' & Hcode & H). injection H as <-. reflexivity.
+  - match type of H with (if ?c then _ else _) = _ => destruct c; [discriminate H|] end. apply bind_ok in H as (cm' & Hcode & H). injection H as <-. reflexivity.
 Qed.
 
 Lemma set_data_comp_spans t spans nrows dc :
@@ -308,7 +308,7 @@ Proof.
       destruct (tc_response t), (tc_reference t);
         first [ injection H as <-; split; reflexivity
               | apply bind_ok in H as (cm' & Hcode & H); injection H as <-; split; reflexivity ].
-    + apply bind_ok in H as (cm' & Hcode & H). injection H as <-. split; reflexivity.
+    + match type of H with (if ?c then _ else _) = _ => destruct c; [discriminate H|] end. apply bind_ok in H as (cm' & Hcode & H). injection H as <-. split; reflexivity.
   - destruct (tc_response t); [discriminate H|].
     destruct (tc_value t) as [| | | | | | | | | | |[q|] xs|]; try discriminate H;
       injection H as <-; split; reflexivity.
